@@ -95,7 +95,7 @@ func VerifC12Query() {
 	v := 54460
 	verifSchedPolicy(vPolicies[verifChoice("policy", 3)], 0)
 	otel := verifChoice("otel", 2) == 1
-	scenario := verifChoice("scenario", 3)
+	scenario := verifChoice("scenario", 6)
 	cell, cell2 := verifU64("cell"), verifU64("cell2")
 
 	rq := rQuery{id: "q1", clientName: "cl", major: 1, minor: 2, patch: 3, rev: v, addr: "127.0.0.1:9"}
@@ -103,7 +103,7 @@ func VerifC12Query() {
 	var q Query
 	conn := &vRConn{maxIdle: 1}
 	switch scenario {
-	case 0, 2: // select: progress, data, profile, end of stream
+	case 0, 2, 3, 4, 5: // select: progress, data, profile, end of stream (3: an exception instead; 4: cancelled; 5: stream cut)
 		col := new(proto.ColUInt64)
 		q = Query{Body: "SELECT", QueryID: "q1", Result: proto.Results{{Name: "a", Data: col}},
 			OnResult:   func(ctx context.Context, b proto.Block) error { return nil },
@@ -114,9 +114,24 @@ func VerifC12Query() {
 		want.data("", nil, v, false)
 		script.srvProgress(proto.Progress{Rows: 1, Bytes: 8}, v)
 		script.srvData(1, []rCol{{name: "a", typ: "UInt64", u64: []uint64{cell}}}, v)
-		script.srvProfile(proto.Profile{Rows: 1, Blocks: 1, Bytes: 8})
-		script.srvEndOfStream()
+		switch scenario {
+		case 3:
+			script.uv(2)
+			script.srvException(60, "n", "m", "s", false)
+		case 5:
+			// the stream ends in the middle of the next packet: the receive loop fails, the cancel-watch cancels and closes
+			script.uv(6)
+			script.b = append(script.b, 1)
+		default:
+			script.srvProfile(proto.Profile{Rows: 1, Blocks: 1, Bytes: 8})
+			script.srvEndOfStream()
+		}
 		conn.gates = [][2]int{{len(want.b), 0}}
+		if scenario == 4 {
+			// a silent server: only the caller's cancellation, from another goroutine, ends the query
+			conn.gates = [][2]int{{1 << 30, 0}}
+			conn.maxIdle = 1 << 20
+		}
 	case 1: // streamed insert: two rounds, the server reports progress while blocks are still being sent
 		in := new(proto.ColUInt64)
 		in.Append(cell)
@@ -163,9 +178,23 @@ func VerifC12Query() {
 			_ = c.Close()
 		}()
 	}
-	err := c.Do(context.Background(), q)
+	ctx := context.Background()
+	if scenario == 4 {
+		var cancel context.CancelFunc
+		ctx, cancel = context.WithCancel(ctx)
+		wg.Add(1)
+		go func() {
+			defer wg.Done()
+			verifYield()
+			cancel()
+		}()
+	}
+	err := c.Do(ctx, q)
 	wg.Wait()
-	if scenario != 2 {
+	if scenario >= 3 {
+		verifAssert(err != nil, "query-fails")
+	}
+	if scenario < 2 {
 		verifAssert(err == nil, "query-ok")
 		// pinging afterwards, on the same client
 		conn.rmu.Lock()
